@@ -140,8 +140,33 @@ UPDATE = {
 }
 
 
+# treeCanSleep(m, d, i, tol) with tol == 0 (the call mj_wake makes): a tree may stay asleep only if nothing was applied to it
+CANSLEEP = {
+    'params': {'m': {'n': 1, 'ptrfields': {'tree_sleep_policy': {'len': 'm.ntree'}, 'tree_bodyadr': {'len': 'm.ntree'}, 'tree_bodynum': {'len': 'm.ntree'},
+                                           'tree_dofadr': {'len': 'm.ntree'}, 'tree_dofnum': {'len': 'm.ntree'}, 'dof_length': {'len': 'm.nv'}}},
+               'd': {'n': 1, 'ptrfields': {'xfrc_applied': {'len': '6 * m.nbody'}, 'qfrc_applied': {'len': 'm.nv'}, 'qvel': {'len': 'm.nv'}}}},
+    'requires': {'sizes': '0 <= i and i < m.ntree and m.ntree < 2**20 and 0 <= m.nbody and m.nbody < 2**20 and 0 <= m.nv and m.nv < 2**20',
+                 'exact_test': 'fpEQ(tol, fp(0.0))',
+                 'tree_ranges': '0 <= m.tree_bodyadr[i] and 0 <= m.tree_bodynum[i] and m.tree_bodyadr[i] + m.tree_bodynum[i] <= m.nbody and '
+                                '0 <= m.tree_dofadr[i] and 0 <= m.tree_dofnum[i] and m.tree_dofadr[i] + m.tree_dofnum[i] <= m.nv'},
+    'assigns': [],
+    'defs': {'PZ': 'lambda v: v == fp(0.0)'},
+    'ensures': {
+        'zero_or_one': 'result == 0 or result == 1',
+        'a_force_on_any_body_of_the_tree_forbids_sleep': 'implies(exists(lambda q: 6 * m.tree_bodyadr[i] <= q and q < 6 * (m.tree_bodyadr[i] + m.tree_bodynum[i]) and not PZ(d.xfrc_applied[q])), result == 0)',
+        'a_generalized_force_on_any_dof_forbids_sleep': 'implies(exists(lambda q: m.tree_dofadr[i] <= q and q < m.tree_dofadr[i] + m.tree_dofnum[i] and not PZ(d.qfrc_applied[q])), result == 0)',
+        'a_velocity_on_any_dof_forbids_sleep': 'implies(exists(lambda q: m.tree_dofadr[i] <= q and q < m.tree_dofadr[i] + m.tree_dofnum[i] and not PZ(d.qvel[q])), result == 0)',
+        'never_policies_forbid_sleep': 'implies(m.tree_sleep_policy[i] == mjSLEEP_NEVER or m.tree_sleep_policy[i] == mjSLEEP_AUTO_NEVER, result == 0)',
+        'otherwise_it_may_sleep': 'implies(result == 0, m.tree_sleep_policy[i] == mjSLEEP_NEVER or m.tree_sleep_policy[i] == mjSLEEP_AUTO_NEVER or '
+                                  'exists(lambda q: 6 * m.tree_bodyadr[i] <= q and q < 6 * (m.tree_bodyadr[i] + m.tree_bodynum[i]) and not PZ(d.xfrc_applied[q])) or '
+                                  'exists(lambda q: m.tree_dofadr[i] <= q and q < m.tree_dofadr[i] + m.tree_dofnum[i] and (not PZ(d.qfrc_applied[q]) or not PZ(d.qvel[q]))))',
+    },
+    'no_error': True, 'prune_ms': 300,
+}
+
+
 def contracts():
-    return {'__defs__': DEFS, 'mj_wakeIsland': WAKE, 'mj_sleepCycle': CYCLE, 'mj_sleepTrees': SLEEPTREES, 'mj_updateSleepInit': UPDATE, 'mju_zero': ZERO, '__effect_free__': ('mju_isTopicEnabled',)}
+    return {'__defs__': DEFS, 'treeCanSleep': CANSLEEP, 'isSmaller': {'inline': True}, 'mj_wakeIsland': WAKE, 'mj_sleepCycle': CYCLE, 'mj_sleepTrees': SLEEPTREES, 'mj_updateSleepInit': UPDATE, 'mju_zero': ZERO, '__effect_free__': ('mju_isTopicEnabled',)}
 
 
 CONTRACTS = contracts()
